@@ -4,6 +4,7 @@ package c06
 import (
 	"fmt"
 	"reflect"
+	"regexp"
 	"testing"
 
 	ucfg "github.com/elastic/go-ucfg"
@@ -28,6 +29,55 @@ type Case struct {
 	// type is used under two tag names in one process
 	AltTags  bool `json:"alttags,omitempty"`
 	AltFirst bool `json:"altfirst,omitempty"`
+	// Share: the value is a graph: every non-nil pointer of a type that occurs more than once points to the object
+	// of the first pointer of that type (one object reached through several fields / elements)
+	Share bool `json:"share,omitempty"`
+}
+
+// sharePointers makes all settable non-nil pointers of one type point to the object of the first of them.
+func sharePointers(v reflect.Value) int {
+	first := map[reflect.Type]reflect.Value{}
+	shared := 0
+	var walk func(v reflect.Value, depth int)
+	walk = func(v reflect.Value, depth int) {
+		if depth > 12 {
+			return
+		}
+		switch v.Kind() {
+		case reflect.Ptr:
+			if v.IsNil() {
+				return
+			}
+			if f, ok := first[v.Type()]; ok {
+				if v.CanSet() && f.Pointer() != v.Pointer() {
+					v.Set(f)
+					shared++
+				}
+				return
+			}
+			first[v.Type()] = v
+			walk(v.Elem(), depth+1)
+		case reflect.Struct:
+			if v.Type() == reflect.TypeOf(regexp.Regexp{}) {
+				return
+			}
+			for i := 0; i < v.NumField(); i++ {
+				if v.Type().Field(i).PkgPath == "" { // exported fields only
+					walk(v.Field(i), depth+1)
+				}
+			}
+		case reflect.Slice, reflect.Array:
+			for i := 0; i < v.Len(); i++ {
+				walk(v.Index(i), depth+1)
+			}
+		case reflect.Interface:
+			if !v.IsNil() {
+				walk(v.Elem(), depth+1)
+			}
+		}
+	}
+	walk(v, 0)
+	return shared
 }
 
 // addAlt gives every field a second tag set: the names are permuted among the named fields of each struct or
@@ -83,7 +133,7 @@ func hasDollar(tv *gen.TV) bool {
 }
 
 func genCase(t *rapid.T) Case {
-	c := Case{PathSep: rapid.Bool().Draw(t, "pathsep")}
+	c := Case{PathSep: rapid.Bool().Draw(t, "pathsep"), Share: rapid.IntRange(0, 2).Draw(t, "share") == 0}
 	cfg := &gen.TDCfg{
 		MaxFields: runlog.Pick(4, 5), Named: true, Inline: true, Ignore: true, EmptyTag: true, NumericTag: true,
 		Dotted:     c.PathSep,
@@ -280,6 +330,9 @@ func runCase(c Case, r *runlog.R) error {
 			what = "under StructTag(\"alt\")"
 		}
 		in := c.T.New(c.V)
+		if c.Share {
+			r.ClassIf(sharePointers(in.Elem()) > 0, "one object reached through several pointers")
+		}
 		var cfg *ucfg.Config
 		err := uc.Safe("NewFrom", func() (e error) { cfg, e = ucfg.NewFrom(in.Interface(), topts...); return })
 		if err != nil {
@@ -291,12 +344,18 @@ func runCase(c Case, r *runlog.R) error {
 			return fmt.Errorf("round trip %d %s: Unpack into zero %v failed: %v\n value %s", ti, what, in.Type().Elem(), err, gen.Show(in.Elem()))
 		}
 		want = c.T.New(c.V)
+		if c.Share {
+			sharePointers(want.Elem())
+		}
 		clearSkipped(c.T, want.Elem())
 		if !gen.EqualValues(want.Elem(), out.Elem()) {
 			return fmt.Errorf("round trip %d %s changed the value\n type %v\n in   %s\n out  %s", ti, what, in.Type().Elem(), gen.Show(want.Elem()), gen.Show(out.Elem()))
 		}
 		// the source value itself must not have been modified by NewFrom
 		orig := c.T.New(c.V)
+		if c.Share {
+			sharePointers(orig.Elem())
+		}
 		if !gen.EqualValues(orig.Elem(), in.Elem()) {
 			return fmt.Errorf("NewFrom modified its argument\n before %s\n after  %s", gen.Show(orig.Elem()), gen.Show(in.Elem()))
 		}
